@@ -65,7 +65,9 @@ def case_strategy(draw, tier):
             "via": draw(st.sampled_from(["instance", "classmethod"])),
             "shift_root": draw(st.booleans()) or True,
             # the transform object has already been applied to another tree that came from the same file
-            "reused": draw(st.integers(0, 2)) == 0}
+            "reused": draw(st.integers(0, 2)) == 0,
+            # the tree keeps its coordinates, radii and types under other column names (a names table of its own)
+            "renamed": draw(st.integers(0, 5)) == 0}
     fl = st.floats(min_value=-100, max_value=100, allow_nan=False, width=32)
     if kind == "translate":
         case["t"] = [draw(fl), draw(fl), draw(fl)]
@@ -172,10 +174,30 @@ def _make(case):
     raise AssertionError(kind)
 
 
+RENAMED = {"x": "px", "y": "py", "z": "pz", "r": "radius", "type": "kind"}
+
+
+def _build(t, renamed, source=""):
+    if not renamed:
+        return gen_tree.build_tree(t, source=source)
+    from swcgeom.core import Tree
+    from swcgeom.core.swc_utils import SWCNames
+
+    n = len(t["parents"])
+    return Tree(n, names=SWCNames(**RENAMED), source=source, id=np.arange(n, dtype=np.int32), pid=np.array(t["parents"], dtype=np.int32),
+                kind=np.array(t["type"], dtype=np.int32), px=np.array(t["x"], dtype=np.float32), py=np.array(t["y"], dtype=np.float32),
+                pz=np.array(t["z"], dtype=np.float32), radius=np.array(t["r"], dtype=np.float32),
+                tag=np.array(t["tag"], dtype=np.int32), w=np.array(t["w"], dtype=np.float32))
+
+
 def run_case(case, ctx):
     t = _root_shift(gen_tree.materialize(case["tree"]))
     kind, center = case["kind"], case["center"]
-    tree = gen_tree.build_tree(t)
+    renamed = bool(case.get("renamed"))
+    col_of = (lambda c: RENAMED.get(c, c)) if renamed else (lambda c: c)
+    if renamed:
+        ctx.cls("tree-with-renamed-columns")
+    tree = _build(t, renamed)
     n = len(tree)
     X = models.xyz64(t)
     root = t["parents"].index(-1)
@@ -205,19 +227,28 @@ def run_case(case, ctx):
 
     if case.get("reused") and case["via"] == "instance":
         # one transform object, two trees with the same `source` (say, a neuron and a shifted copy of it)
-        tree = gen_tree.build_tree(t, source="shared.swc")
+        tree = _build(t, renamed, source="shared.swc")
         before = {k: v.copy() for k, v in tree.ndata.items()}
         t_dec = dict(t, x=[gen_tree.f32(v + 7.0) for v in t["x"]], y=[gen_tree.f32(v - 3.0) for v in t["y"]],
                      z=[gen_tree.f32(v + 5.0) for v in t["z"]])
-        ctx.lib(f"{kind}/apply", f, gen_tree.build_tree(t_dec, source="shared.swc"))
+        earlier = ctx.lib(f"{kind}/apply", f, _build(t_dec, renamed, source="shared.swc"))
+        earlier_snap = {k: v.copy() for k, v in earlier.ndata.items()}
         ctx.cls("transform-object-reused-on-a-tree-of-the-same-source")
     out = ctx.lib(f"{kind}/apply", f, tree)
+    if case.get("reused") and case["via"] == "instance":
+        # the result of the earlier call is still in use: the next call of the same object neither changes it nor shares
+        # storage with it
+        for k, v in earlier_snap.items():
+            ctx.check(np.array_equal(earlier.ndata[k], v, equal_nan=True), f"{kind}/earlier-result-unchanged-by-the-next-call", f"column {k}")
+            ctx.check(not any(np.shares_memory(earlier.ndata[k], vo) for vo in out.ndata.values()),
+                      f"{kind}/results-of-two-calls-share-no-storage", f"column {k}")
 
     for k, v in before.items():
         ctx.check(np.array_equal(tree.ndata[k], v), f"{kind}/input-unchanged", f"column {k} modified")
     ctx.check(len(out) == n, f"{kind}/node-count", f"{len(out)} != {n}")
+    ctx.check(set(out.ndata) == set(before), f"{kind}/columns-kept", lambda: f"{sorted(out.ndata)} vs {sorted(before)}")
     for col in ("id", "pid", "type", "r", "tag", "w"):
-        ctx.check(np.array_equal(out.ndata[col], before[col]), f"{kind}/topology-types-radii-extras-unchanged",
+        ctx.check(np.array_equal(out.ndata[col_of(col)], before[col_of(col)]), f"{kind}/topology-types-radii-extras-unchanged",
                   f"column {col} changed")
     got = np.stack([out.x(), out.y(), out.z()], axis=1).astype(np.float64)
     err = float(np.abs(got - want).max())
@@ -381,7 +412,7 @@ SUBCHECKS = [
                                                             "center:soma": 100, "via:classmethod": 300,
                                                             "angle:multiple-of-pi/2": 20, "root-not-at-0": 200, "n>60": 60,
                                                             "transform-object-reused-on-a-tree-of-the-same-source": 150,
-                                                            "affine-matrix-with-homogeneous-scale": 60})),
+                                                            "affine-matrix-with-homogeneous-scale": 60, "tree-with-renamed-columns": 200})),
     Sub("pipeline", pipeline_strategy, run_pipeline, quick=800, thorough=8000, shards_quick=4,
         required={"root-centred-stage-after-the-root-was-moved": 150, "stages:3": 100}),
     Sub("builders", builder_strategy, run_builder, quick=600, thorough=8000, shards_quick=2,
